@@ -7,7 +7,6 @@ def check(ctx):
                               ('TCPPacketGenerator', 'timeout_callback'), ('TCPPacketGenerator', 'put'),
                               ('TCPPacketGenerator', 'resend_packet'),
                               ('Timer', '__init__'), ('Timer', 'run'), ('Timer', 'stop'), ('Timer', 'restart')])
-    N.run_tables(ctx, 'C16', [('PacketSink', 'put')])
     elements.ack_depends_on_buffer_only(ctx, 'C16')
     elements.ack_offset_constant(ctx, 'C16')
     elements.timer_args_shape(ctx, 'C16')
